@@ -6,7 +6,8 @@
  *     allocseq0 n s...                   sizes requested by hwloc__topology_dup(A) under a logging tma: what get_length counts
  *     allocseq n s...                    the same after the refresh hwloc_shmem_topology_write performs: what is written
  *     write <rc=..errno=..|SIG<n>>       hwloc_shmem_topology_write in a forked child; the page after the mapping is PROT_NONE
- *     file size=ok|BAD prefix=ok|BAD tail=ok|BAD:<off> used=<bytes>   bytes before the offset untouched, bytes after the used area still 0
+ *     file size=ok|BAD prefix=ok|BAD tail=ok|BAD:<off> suffix=ok|BAD used=<bytes>   the page before the offset untouched, bytes after the
+ *                                        used area still 0, the page stored after offset+len (another user of the file) still there
  *     reject <case> rc= errno=           adoption with a wrong argument / header / busy range
  *     adopt rc= errno=
  *     obscmp same|DIFF ...               observation of the adopted copy (in a grandchild: a fault is a result)
@@ -24,10 +25,12 @@
 #include <signal.h>
 #include <hwloc/diff.h>
 
+/* checksum of the part of the file in use: [FS_LO, FS_HI) (the file may be sparse and huge below FS_LO) */
+static off_t FS_LO, FS_HI;
 static unsigned long long file_sum(int fd)
 {
-  unsigned long long h = 1469598103934665603ull; unsigned char buf[65536]; ssize_t n; off_t o = 0;
-  while ((n = pread(fd, buf, sizeof buf, o)) > 0) { ssize_t i; for (i = 0; i < n; i++) { h ^= buf[i]; h *= 1099511628211ull; } o += n; }
+  unsigned long long h = 1469598103934665603ull; unsigned char buf[65536]; ssize_t n; off_t o = FS_LO;
+  while (o < FS_HI && (n = pread(fd, buf, (size_t)(FS_HI - o) < sizeof buf ? (size_t)(FS_HI - o) : sizeof buf, o)) > 0) { ssize_t i; for (i = 0; i < n; i++) { h ^= buf[i]; h *= 1099511628211ull; } o += n; }
   return h;
 }
 
@@ -78,6 +81,22 @@ CALL(set_flags, hwloc_topology_set_flags(t, 0))
 CALL(set_synthetic, hwloc_topology_set_synthetic(t, "pu:1"))
 CALL(load_again, hwloc_topology_load(t))
 CALL(check, (hwloc_topology_check(t), 0))
+static int c_distances_release_remove(void *u)
+{
+  hwloc_topology_t t = ADOPTED; struct hwloc_distances_s *ds[1]; unsigned nr = 1; int rc, e; (void)u;
+  if (hwloc_distances_get(t, &nr, ds, 0, 0) < 0 || !nr) { printf("skipped"); return 0; }
+  errno = 0; rc = hwloc_distances_release_remove(t, ds[0]); e = errno;
+  printf("%s", outcome(rc, e)); return 0;
+}
+CALL(obj_set_subtype, hwloc_obj_set_subtype(t, hwloc_get_root_obj(t), "hwv"))
+static int c_obj_set_subtype_existing(void *u)
+{
+  hwloc_topology_t t = ADOPTED; hwloc_obj_t o = NULL; int rc, e; (void)u;
+  while ((o = hwloc_get_next_obj_by_type(t, HWLOC_OBJ_PU, o)) != NULL) if (o->subtype) break;
+  if (!o) { o = hwloc_get_root_obj(t); if (!o->subtype) { printf("skipped"); return 0; } }
+  errno = 0; rc = hwloc_obj_set_subtype(t, o, NULL); e = errno;      /* frees the mapped string */
+  printf("%s", outcome(rc, e)); return 0;
+}
 static int c_diff_apply(void *u)
 {
   hwloc_topology_t t = ADOPTED; struct hwloc_topology_diff_obj_attr_s d; int rc, e; (void)u;
@@ -145,7 +164,7 @@ static int rej_table(void *a)
   try_adopt(d->fd, d->off + d->pagesz, d->addr, d->len, 0, "wrong-offset");
   try_adopt(d->fd, d->off, d->addr, d->len, 1, "flags");
   /* corrupted copies of the file: header version, topology ABI (copied through a static buffer: a large malloc could land in the range to map) */
-  { static unsigned char cb[65536]; off_t o = 0; ssize_t n;
+  { static unsigned char cb[65536]; off_t o = (off_t)d->off; ssize_t n;
     fd2 = mkstemp(tmpl); unlink(tmpl);
     while ((n = pread(d->fd, cb, sizeof cb, o)) > 0) { pwrite(fd2, cb, (size_t)n, o); o += n; }
     pread(d->fd, &v, 4, (off_t)d->off); v += 1; pwrite(fd2, &v, 4, (off_t)d->off);
@@ -174,6 +193,8 @@ static int adopt_and_exercise(void *a)
   run_call("restrict", c_restrict, d->fd); run_call("insert_misc", c_insert_misc, d->fd); run_call("insert_group", c_insert_group, d->fd);
   run_call("distances_add", c_distances_add, d->fd); run_call("distances_remove", c_distances_remove, d->fd);
   run_call("distances_remove_by_depth", c_distances_remove_by_depth, d->fd); run_call("diff_apply", c_diff_apply, d->fd);
+  run_call("distances_release_remove", c_distances_release_remove, d->fd); run_call("obj_set_subtype", c_obj_set_subtype, d->fd);
+  run_call("obj_set_subtype_existing", c_obj_set_subtype_existing, d->fd);
   run_call("memattr_register", c_memattr_register, d->fd); run_call("memattr_set_value", c_memattr_set_value, d->fd);
   run_call("memattr_set_value_builtin", c_memattr_set_value_builtin, d->fd);
   run_call("cpukinds_register", c_cpukinds_register, d->fd); run_call("obj_add_info", c_obj_add_info, d->fd);
@@ -190,17 +211,20 @@ static int adopt_and_exercise(void *a)
   return 0;
 }
 
-struct fc { int fd; size_t off, len, used; };
+struct fc { int fd; size_t off, len, used, pagesz; };
+/* bytes before the offset (last page), after the used area, and the page stored after offset+len (another user of the file) */
 static int check_file(void *a)
 {
-  struct fc *c = a; struct stat sb; unsigned char *buf; size_t i2, bad = 0; int pre_ok = 1; size_t hdr = 24;
-  fstat(c->fd, &sb); buf = malloc((size_t)sb.st_size + 1); pread(c->fd, buf, (size_t)sb.st_size, 0);
-  for (i2 = 0; i2 < c->off && i2 < (size_t)sb.st_size; i2++) if (buf[i2] != 0xA5) pre_ok = 0;
-  for (i2 = c->off + hdr + c->used; i2 < (size_t)sb.st_size; i2++) if (buf[i2]) { bad = i2; break; }
-  printf("file size=%s prefix=%s tail=%s", (size_t)sb.st_size == c->off + c->len ? "ok" : "BAD", pre_ok ? "ok" : "BAD", bad ? "BAD" : "ok");
+  struct fc *c = a; struct stat sb; static unsigned char buf[65536]; size_t bad = 0, o, lo; int pre_ok = 1, suf_ok = 1; size_t hdr = 24; ssize_t n, i2;
+  fstat(c->fd, &sb);
+  lo = c->off > c->pagesz ? c->off - c->pagesz : 0;
+  for (o = lo; o < c->off; o += (size_t)n) { n = pread(c->fd, buf, c->off - o < sizeof buf ? c->off - o : sizeof buf, (off_t)o); if (n <= 0) { pre_ok = 0; break; } for (i2 = 0; i2 < n; i2++) if (buf[i2] != 0xA5) pre_ok = 0; }
+  for (o = c->off + hdr + c->used; o < c->off + c->len && !bad; o += (size_t)n) { n = pread(c->fd, buf, c->off + c->len - o < sizeof buf ? c->off + c->len - o : sizeof buf, (off_t)o); if (n <= 0) break; for (i2 = 0; i2 < n; i2++) if (buf[i2]) { bad = o + (size_t)i2; break; } }
+  n = pread(c->fd, buf, c->pagesz, (off_t)(c->off + c->len));
+  if (n != (ssize_t)c->pagesz) suf_ok = 0; else for (i2 = 0; i2 < n; i2++) if (buf[i2] != 0x5C) suf_ok = 0;
+  printf("file size=%s prefix=%s tail=%s", (size_t)sb.st_size == c->off + c->len + c->pagesz ? "ok" : "BAD", pre_ok ? "ok" : "BAD", bad ? "BAD" : "ok");
   if (bad) printf(":%zu", bad - c->off);
-  printf(" used=%zu\n", hdr + c->used);
-  free(buf);
+  printf(" suffix=%s used=%zu\n", suf_ok ? "ok" : "BAD", hdr + c->used);
   return 0;
 }
 
@@ -231,14 +255,19 @@ static void do_shmem(hwloc_topology_t A, unsigned k)
     if (!rc) hwloc_topology_destroy(C);
     free(log.sizes); free(log.ptrs); }
   fd = mkstemp(tmpl); unlink(tmpl);
-  { unsigned char *pre = malloc(off + 1); memset(pre, 0xA5, off); if (off) pwrite(fd, pre, off, 0); free(pre); }
+  { /* the page before the offset and the page after offset+len belong to somebody else (the file may be sparse below) */
+    unsigned char *pg = malloc(pagesz); size_t lo = off > pagesz ? off - pagesz : 0;
+    memset(pg, 0xA5, pagesz); if (off) pwrite(fd, pg, off - lo, (off_t)lo);
+    memset(pg, 0x5C, pagesz); pwrite(fd, pg, pagesz, (off_t)(off + len));
+    free(pg); }
   /* reserve len + one page, keep the last page PROT_NONE, free the rest for the mapping */
   region = mmap(NULL, len + pagesz, PROT_NONE, MAP_PRIVATE | MAP_ANONYMOUS, -1, 0);
   munmap(region, len);
+  FS_LO = (off_t)(off > pagesz ? off - pagesz : 0); FS_HI = (off_t)(off + len + pagesz);
   w.t = A; w.fd = fd; w.off = off; w.addr = region; w.len = len;
   st = in_child(do_write, &w);
   if (st < 0) printf("write SIG%d\n", -st);
-  { struct fc c; c.fd = fd; c.off = off; c.len = len; c.used = used; in_child(check_file, &c); }   /* in a child: no allocation may land in the freed range */
+  { struct fc c; c.fd = fd; c.off = off; c.len = len; c.used = used; c.pagesz = pagesz; in_child(check_file, &c); }   /* in a child: no allocation may land in the freed range */
   ORIG = A; d.fd = fd; d.off = off; d.addr = region; d.len = len; d.pagesz = pagesz;
   st = in_child(adopt_and_exercise, &d);
   if (st < 0) printf("adopter SIG%d\n", -st);
